@@ -92,11 +92,10 @@ def stage(name, extra_params=None, returns='Reply', ensures=(), props=('C11', 'C
 stage('_banner', returns='None')
 stage('_helo', {'ehlo_as': 'Any'}, ensures=['result != None', 'not result.is_error()'])
 stage('_starttls', returns='None')
-stage('_rset', returns='None')
+stage('_rset', returns='None', raises={k: v for k, v in ERR.items() if k != 'SmtpRelayError'})   # the RSET reply is not examined
 stage('_mailfrom', {'sender': 'Any'}, ensures=['result != None',
-                                              'implies(result.code is not None, not result.is_error())'])
-stage('_rcptto', {'rcpt': 'Any'}, ensures=['result != None', 'result.code is not None'])
-stage('_data', ensures=['result != None', 'result.code is not None'])
+                                              'implies(result.code is not None, not result.is_error() and len(cast(result.code, Str)) == 3)'])
+stage('_rcptto', {'rcpt': 'Any'}, ensures=['result != None', 'result.code is not None', 'len(cast(result.code, Str)) == 3'])
 stage('_send_empty_data', returns='None')
 
 contract('SmtpRelayClient._send_message_data', props=['C11', 'C14'],
@@ -134,10 +133,165 @@ contract('SmtpRelayClient._get_error_reply', props=['C11'],
          requires=['self.client != None'],
          # a disconnect / protocol error is reported as transient: always a 421, either the server's own or a new one
          ensures=['result != None', 'result.code == "421"'],
-         raises={'AssertionError': []}, modifies=['fresh'], **RC)
+         modifies=['fresh'], **RC)
 
 contract('SmtpRelayClient._ehlo', kind='extern', params={'self': 'SmtpRelayClient'}, returns='Reply', yields=True,
          raises=ERR, notes='SmtpRelayClient._ehlo assumed at its call sites (calls a user-supplied ehlo_as callable '
                            'under `except TypeError`; its Timeout scope is the same pattern as _helo)')
 contract('SmtpRelayClient._authenticate', kind='extern', params={'self': 'SmtpRelayClient'}, yields=True,
          raises=ERR, notes='SmtpRelayClient._authenticate assumed at its call site (user-supplied credentials callable)')
+
+# ---------------------------------------------------------------------------- one transaction, one request, one connection
+# (C11: the attempt always ends with a result or a relay error; C19: every request gets the result of its own
+# envelope exactly once, or is put back; a failed transaction is reset before the connection is reused)
+klass('AsyncResult', ghost={'answered': 'Bool', 'n_answers': 'Int', 'is_exc': 'Bool', 'value': 'Any'})
+extern('AsyncResult.set', params={'self': 'AsyncResult', 'value': 'Any'}, defaults={'value': 'None'},
+       modifies=['self.answered', 'self.n_answers', 'self.is_exc', 'self.value'],
+       ensures=['self.answered', 'self.n_answers == old(self.n_answers) + 1', 'not self.is_exc', 'same(self.value, value)'])
+extern('AsyncResult.set_exception', params={'self': 'AsyncResult', 'exc': 'Any'},
+       modifies=['self.answered', 'self.n_answers', 'self.is_exc', 'self.value'],
+       ensures=['self.answered', 'self.n_answers == old(self.n_answers) + 1', 'self.is_exc', 'same(self.value, exc)'])
+extern('AsyncResult.ready', params={'self': 'AsyncResult'}, returns='Bool', pure=True, reads=['self.answered'],
+       ensures=['result == self.answered'], is_property=False)
+
+T.alias('RcptRes', 'Union[None, Reply, SmtpRelayError]')
+predicate('AR_ok(r)', 'r.n_answers >= 0 and r.answered == (r.n_answers >= 1)')
+
+POPULATE = ['forall(Reply, lambda r: implies(allocated(r) and old(r.code) is None, r.code is not None and len(cast(r.code, Str)) == 3))',
+            'forall(Reply, lambda r: implies(old(r.code) is not None, r.code == old(r.code)))']
+# DATA is not pipelined: Client.data() = custom_command(b"DATA") flushes the pipeline, which populates every
+# outstanding (MAIL / RCPT) reply
+contract('SmtpRelayClient._data', params={'self': 'SmtpRelayClient'}, returns='Reply', props=['C11', 'C14'],
+         ensures=['result != None', 'result.code is not None', 'len(cast(result.code, Str)) == 3'] + POPULATE,
+         raises=ERR, modifies=['fresh', 'any(Reply).code', 'any(Reply).message'], **RC)
+extern('ClientView.data', params={'self': 'ClientView'}, returns='Reply', yields=True, requires=SCOPE, raises=CL_RAISES,
+       modifies=['any(Reply).code', 'any(Reply).message'],
+       ensures=['result != None', 'result.code is not None', 'len(cast(result.code, Str)) == 3'] + POPULATE,
+       notes='Client.data (assumed view): DATA is not pipelined -- custom_command(b"DATA") flushes the pipeline, so every '
+             'outstanding MAIL / RCPT reply is populated when it returns (pairing of replies is C10)')
+
+contract('SmtpRelayClient._send_envelope', props=['C11', 'C19'],
+         params={'self': 'SmtpRelayClient', 'rcpt_results': 'Dict[Str, RcptRes]', 'envelope': 'Envelope'},
+         requires=['envelope != None', 'envelope.recipients != None', 'len(envelope.recipients) >= 1',
+                   'rcpt_results != None', 'distinct_by(envelope.recipients, lambda r: r)',
+                   'forall(envelope.recipients, lambda r: dict_has(rcpt_results, r) and dict_get(rcpt_results, r) is None)',
+                   'forall(dict_keys(rcpt_results), lambda r: r in seq(envelope.recipients))'],
+         ensures=[
+             # the transaction goes on: MAIL and DATA accepted, at least one recipient accepted; exactly the rejected
+             # recipients carry a relay error (classified by their own reply), the others stay undecided (None)
+             'forall(dict_keys(rcpt_results), lambda r: r in seq(envelope.recipients))',
+             'forall(envelope.recipients, lambda r: dict_has(rcpt_results, r))',
+             'exists(envelope.recipients, lambda r: dict_get(rcpt_results, r) is None)',
+             'forall(envelope.recipients, lambda r: dict_get(rcpt_results, r) is None or '
+             '       (isinstance(dict_get(rcpt_results, r), SmtpRelayError) and cast(dict_get(rcpt_results, r), SmtpRelayError).reply != None '
+             '        and cast(dict_get(rcpt_results, r), SmtpRelayError).reply.is_error()))'],
+         checks=[
+             # recipient i is marked failed iff ITS OWN RCPT reply was an error
+             'forall(range(0, len(envelope.recipients)), lambda i: (dict_get(rcpt_results, envelope.recipients[i]) is None) == '
+             '       (not _lc0[i].is_error()))'],
+         raises=dict(ERR, SmtpRelayError=['exc.reply != None']),
+         modifies=['contents(rcpt_results)', 'fresh', 'any(Reply).code', 'any(Reply).message'],
+         locals={'_lc0': 'List[Reply]', 'rcpttos': 'List[Reply]', 'data': 'Opt[Reply]'},
+         loops={'c0': dict(modifies=['fresh'],
+                           inv=['_lc0 != None and fresh(_lc0) and is_list(_lc0)', 'len(_lc0) == _k',
+                                'forall(_lc0, lambda r: r != None and allocated(r) and r.code is not None and len(cast(r.code, Str)) == 3)',
+                                'mailfrom != None and allocated(mailfrom) and implies(mailfrom.code is not None, len(cast(mailfrom.code, Str)) == 3)',
+                                'forall(envelope.recipients, lambda r: dict_has(rcpt_results, r) and dict_get(rcpt_results, r) is None)',
+                                'forall(dict_keys(rcpt_results), lambda r: r in seq(envelope.recipients))']),
+                0: dict(modifies=['contents(rcpt_results)', 'fresh'],
+                        inv=['rcpttos != None and len(rcpttos) == len(envelope.recipients)',
+                             'forall(rcpttos, lambda r: r != None and r.code is not None and len(cast(r.code, Str)) == 3)',
+                             'forall(dict_keys(rcpt_results), lambda r: r in seq(envelope.recipients))',
+                             'forall(envelope.recipients, lambda r: dict_has(rcpt_results, r))',
+                             'forall(range(0, _k), lambda i: (dict_get(rcpt_results, envelope.recipients[i]) is None) == (not rcpttos[i].is_error()))',
+                             'forall(range(0, _k), lambda i: dict_get(rcpt_results, envelope.recipients[i]) is None or '
+                             '       (isinstance(dict_get(rcpt_results, envelope.recipients[i]), SmtpRelayError) '
+                             '        and cast(dict_get(rcpt_results, envelope.recipients[i]), SmtpRelayError).reply is rcpttos[i]))',
+                             'forall(range(_k, len(envelope.recipients)), lambda i: dict_get(rcpt_results, envelope.recipients[i]) is None)',
+                             'exists(rcpttos, lambda r: not r.is_error())'])},
+         **RC)
+
+contract('SmtpRelayClient._handle_encoding', kind='extern', params={'self': 'SmtpRelayClient', 'envelope': 'Envelope'},
+         raises={'SmtpRelayError': ['exc.reply != None'], 'AssertionError': []},
+         notes='SmtpRelayClient._handle_encoding assumed at its call site (7-bit conversion through Envelope.encode_7bit, '
+               'C20 territory): returns, or raises a 554 relay error; sends nothing')
+
+contract('SmtpRelayClient._deliver', props=['C11', 'C19'],
+         params={'self': 'SmtpRelayClient', 'result': 'AsyncResult', 'envelope': 'Envelope'},
+         requires=['result != None', 'envelope != None', 'envelope.recipients != None', 'len(envelope.recipients) >= 1',
+                   'distinct_by(envelope.recipients, lambda r: r)', 'AR_ok(result)'],
+         ensures=['AR_ok(result)',
+             # the request is answered exactly once, with a mapping keyed by exactly the recipients or with a relay error
+             'result.n_answers == old(result.n_answers) + 1', 'result.answered',
+             'implies(result.is_exc, isinstance(result.value, SmtpRelayError) and cast(result.value, SmtpRelayError).reply != None)'],
+         checks=[
+             'implies(not result.is_exc, ncalls("SmtpRelayClient._send_message_data") == 1 and same(result.value, rcpt_results) '
+             '   and forall(envelope.recipients, lambda r: dict_has(rcpt_results, r)) '
+             '   and forall(dict_keys(rcpt_results), lambda r: r in seq(envelope.recipients)) '
+             # a recipient is reported delivered (no relay error) only with the end-of-data outcome of the message,
+             # which _send_message_data returns only when it is not an error
+             '   and forall(envelope.recipients, lambda r: isinstance(dict_get(rcpt_results, r), SmtpRelayError) '
+             '              or same(dict_get(rcpt_results, r), call_result("SmtpRelayClient._send_message_data", 0))))',
+             # C19: a failed transaction is reset before the connection carries the next message
+             'implies(result.is_exc, ncalls("SmtpRelayClient._rset") == 1)'],
+         raises={'ConnectionLost': ['result.n_answers <= old(result.n_answers) + 1', 'result.n_answers >= old(result.n_answers)', 'AR_ok(result)'],
+                 'BadReply': ['result.n_answers <= old(result.n_answers) + 1', 'result.n_answers >= old(result.n_answers)', 'AR_ok(result)'],
+                 'OSError': ['result.n_answers <= old(result.n_answers) + 1', 'result.n_answers >= old(result.n_answers)', 'AR_ok(result)'],
+                 'Timeout': ['result.n_answers <= old(result.n_answers) + 1', 'result.n_answers >= old(result.n_answers)', 'AR_ok(result)'],
+                 'AssertionError': ['result.n_answers <= old(result.n_answers) + 1', 'result.n_answers >= old(result.n_answers)', 'AR_ok(result)']},
+         modifies=['result.answered', 'result.n_answers', 'result.is_exc', 'result.value', 'fresh',
+                   'any(Reply).code', 'any(Reply).message'],
+         locals={'rcpt_results': 'Dict[Str, RcptRes]', 'msg_result': 'Any'},
+         loops={0: dict(modifies=['contents(rcpt_results)'],
+                        inv=['rcpt_results != None and fresh(rcpt_results)',
+                             'forall(envelope.recipients, lambda r: dict_has(rcpt_results, r))',
+                             'forall(dict_keys(rcpt_results), lambda r: r in seq(envelope.recipients))',
+                             'forall(dict_keys(rcpt_results), lambda r: dict_get(rcpt_results, r) is None '
+                             '       or isinstance(dict_get(rcpt_results, r), SmtpRelayError) or same(dict_get(rcpt_results, r), msg_result))',
+                             'forall(dict_keys(rcpt_results), lambda r: implies(dict_index(rcpt_results, r) < _k, '
+                             '       not (dict_get(rcpt_results, r) is None) or msg_result is None))'])},
+         **RC)
+
+# ---------------------------------------------------------------------------- SmtpRelayClient._run: the life of one connection
+global_object('connection_failed', 'Reply', code='451')
+klass('SmtpRelayClient', ghost={'cur': 'AsyncResult', 'requeued': 'Bool'})
+extern('SmtpRelayClient.poll', params={'self': 'SmtpRelayClient'}, returns='Tuple[AsyncResult, Envelope]', yields=True,
+       ensures=['(result[0] == None) == (result[1] == None)',
+                # a request taken from the pool queue has not been answered by anybody yet
+                'implies(result[0] != None, allocated(result[0]) and allocated(result[1]) and not result[0].answered '
+                '        and result[0].n_answers == 0 and AR_ok(result[0]) '
+                '        and result[1].recipients != None and len(result[1].recipients) >= 1 '
+                '        and distinct_by(result[1].recipients, lambda r: r))'],
+       notes='RelayPoolClient.poll as seen by _run (assumed view; poll itself is under contract for C19): the next '
+             'delivery request of the pool queue, or (None, None) after the idle timeout; an envelope handed to a relay '
+             'has at least one recipient and no recipient twice')
+extern('SmtpRelayClient._connect', params={'self': 'SmtpRelayClient'}, yields=True,
+       modifies=['self.socket', 'self.client'], ensures=['self.client != None'],
+       raises={'OSError': [], 'Timeout': []},
+       notes='SmtpRelayClient._connect assumed at its call site in _run (socket_creator under Timeout(connect_timeout))')
+extern('SmtpRelayClient._disconnect', params={'self': 'SmtpRelayClient'}, yields=True,
+       raises={'AssertionError': [], 'OSError': [], 'OtherException': []},
+       notes='SmtpRelayClient._disconnect assumed at its call site in _run (QUIT best effort, socket closed)')
+extern('AsyncResult.__bool__', params={})
+
+DONE = 'self.cur == None or self.requeued or (self.cur.answered and self.cur.n_answers == 1)'
+contract('SmtpRelayClient._run', props=['C11', 'C19'], yields=True,
+         params={'self': 'SmtpRelayClient'},
+         requires=['self.queue != None', 'INV_deque(self.queue)', 'not self.requeued'],
+         ghost_after={'result, envelope = self.poll()': ['self.cur = result'],
+                      'self.queue.appendleft((result, envelope))': ['self.requeued = True']},
+         # C11/C19: whatever the server does, the request this connection holds when it ends has been answered exactly
+         # once (result or relay error) or was put back at the head of the pool queue; earlier requests were answered
+         # by _deliver
+         ensures=[DONE],
+         raises={'OtherException': [DONE], 'AssertionError': [DONE], 'OSError': [DONE], 'TypeError': [DONE]},
+         modifies=['self.cur', 'self.requeued', 'self.socket', 'self.client', 'self.queue.n', 'self.queue.sema.counter',
+                   'any(AsyncResult).answered', 'any(AsyncResult).n_answers', 'any(AsyncResult).is_exc', 'any(AsyncResult).value',
+                   'any(Reply).code', 'any(Reply).message', 'fresh'],
+         locals={'result': 'AsyncResult', 'envelope': 'Envelope'},
+         loops={0: dict(inv=['self.cur is result', 'not self.requeued', 'self.queue != None', 'INV_deque(self.queue)',
+                             'self.client != None',
+                             'implies(result != None, allocated(result) and not result.answered and result.n_answers == 0 '
+                             '        and envelope != None and allocated(envelope) and envelope.recipients != None '
+                             '        and len(envelope.recipients) >= 1 and distinct_by(envelope.recipients, lambda r: r))'])},
+         **RC)
